@@ -192,3 +192,17 @@ PROPS["C15"] = dict(
     assumptions=["operators are evaluated at regular points"],
     rule="bounded: random models x histories; distinct = distinct (model, step) pairs",
 )
+
+PROPS["C18"] = dict(
+    level="exploration",
+    explanation="Bounded only (no obligation is claimed as proved): valve_segments and valve_segment_attributes are pandas / networkx code whose "
+                "specification is reachability in a graph cut by valves; contracts over DataFrame operations and transitive closure are outside what the "
+                "VC generator and the SMT solvers can decide. The real functions are run behind a run-time contract over every multigraph and every valve "
+                "layer of the stated small scope (exhaustive) against a union-find reference.",
+    trusted_base=[],
+    not_decided=["graphs beyond the enumerated scope"],
+    assumptions=[],
+    rule="every multigraph with 2..4 nodes and 1..3 (thorough: 5) links incl. parallel links x every subset of link-end incidences as valve layer; "
+         "distinct = distinct (node count, link multiset, valve subset); non-trivial = all of them (each is a different partition problem)",
+    technique="bounded stand-in only: exhaustive small-scope run-time contract on the real functions (contract-based deductive verification not applicable: see DESIGN.md)",
+)
